@@ -350,18 +350,25 @@ claim("C19",
       design_ref="DESIGN.md §5 C19")
 
 claim("C13",
-      text="Proved for the Lean model of delphin.repp (16 theorems), for every template, match list, program and input: the string "
+      text="Proved for the Lean model of delphin.repp (26 theorems), for every template, match list, program and input: the string "
            "built by the offset-tracking loop of _REPPRule._apply/_process_match equals ordered regex substitution (no hypothesis "
            "on the template: groups in any order, repeated, unmatched optional groups, escapes); the tracked/untracked split "
            "loses nothing of the template; groups, iterative groups reach a fixpoint of their body exactly when one is reached "
            "after finitely many rounds (fuel irrelevance), external groups apply only when active, include splicing, a module "
            "with no applicable rule returns its input; the trace is a chain whose last element equals apply; a mask rule by "
-           "itself changes neither string nor maps.",
+           "itself changes neither string nor maps. Round 2 (26 theorems in all): the loader (_parse_repp_module and helpers: "
+           "rule/mask lines, #n definitions and calls incl. use-before-define in the module-global namespace, >external calls, "
+           "<file includes, : and @ lines, error enums) is modelled line by line; proved of it: loading text with an include "
+           "equals loading the text with the file's lines spliced in, in every parser state (inside groups and included files "
+           "too), and load ∘ render = id on well-formed operation trees; programs WITH masks: under any mask a rule rewrites "
+           "exactly the non-blocked matches, a blocked match is left alone, an all-blocked step is the identity, and mask-free "
+           "programs coincide with the round-1 semantics.",
       note="The regex engine is a parameter of the model: the harness ships the match lists returned by the rule's own compiled "
            "pattern (validity — ordered, non-overlapping, inside the string — checked on every list). Compared on generated "
            "cases: model vs delphin.repp on all verbose trace steps; direct oracle re.sub in order with iteration until "
-           "unchanged. stdlib re instead of regex; all-zero mask state; _parse_repp_module and mask blocking (_check_mask) are "
-           "covered by the oracle only; non-terminating iterative groups (length-increasing rules) are excluded; strings capped "
+           "unchanged. stdlib re instead of regex; the loader model is compared with the real loader on every generated program text and on "
+           "raw/damaged line lists; mask blocking is compared step by step incl. mask arrays; no theorem yet links a loaded "
+           "module to the executable operation tree (done by the harness, oracle-checked); non-terminating iterative groups (length-increasing rules) are excluded; strings capped "
            "at 160 characters.",
       technique="Lean 4 proof over executable model (regex engine as parameter) + differential correspondence + re.sub oracle",
       design_ref="DESIGN.md §5 C13")
